@@ -184,9 +184,35 @@ func refusingCompare(p *Prog, f *ssa.Function, cond ssa.Value) bool {
 }
 
 // depthStepFunc: f counts a level and refuses beyond a constant with a non-nil error (a helper like (*Parser).deeper).
-func depthStepFunc(p *Prog, f *ssa.Function) bool {
+func depthStepFunc(p *Prog, f *ssa.Function) bool { return depthStepFuncD(p, f, 0) }
+
+func depthStepFuncD(p *Prog, f *ssa.Function, depth int) bool {
 	if f == nil || f.Blocks == nil || !p.InPkg(f) || errorResultIndex(f) < 0 {
 		return false
+	}
+	// a thin wrapper of a step (`stack()`: raise the mark, then `return p.deeper(1)`): every return hands on the result
+	// of a step, stands behind one, or is a refusal
+	if depth < 2 && len(f.Blocks) <= 6 {
+		ei := errorResultIndex(f)
+		steps, all := 0, true
+		for _, ret := range returnsOf(f) {
+			if ei >= len(ret.Results) {
+				all = false
+				break
+			}
+			v := res(ret, ei)
+			if c, ok := v.(*ssa.Call); ok && c.Common().StaticCallee() != nil && c.Common().StaticCallee() != f && depthStepFuncD(p, c.Common().StaticCallee(), depth+1) {
+				steps++
+				continue
+			}
+			if definitelyNonNil(v, 0) || guardedNonNil(ret, v) {
+				continue
+			}
+			all = false
+		}
+		if all && steps > 0 {
+			return true
+		}
 	}
 	for _, b := range f.Blocks {
 		iff, ok := b.Instrs[len(b.Instrs)-1].(*ssa.If)
@@ -194,8 +220,23 @@ func depthStepFunc(p *Prog, f *ssa.Function) bool {
 			continue
 		}
 		if c, _ := normCond(iff.Cond, true); refusingCompare(p, f, c) {
+			// (a comparison of a high-water mark refuses a tree that is too high; it is no step of the counter: what is
+			// parsed behind it is not one level deeper)
+			if bo, ok := c.(*ssa.BinOp); ok && c01ReadsMark(p, bo.X) {
+				continue
+			}
 			return true
 		}
+	}
+	return false
+}
+
+func c01ReadsMark(p *Prog, v ssa.Value) bool {
+	if fa, _, ok := c01FieldLoad(v); ok {
+		return c01MarkOf(p, fa) != nil
+	}
+	if add, ok := v.(*ssa.BinOp); ok && add.Op == token.ADD {
+		return c01ReadsMark(p, add.X) || c01ReadsMark(p, add.Y)
 	}
 	return false
 }
@@ -736,7 +777,53 @@ func ruleC01UserMethods(p *Prog, a *Anchors, r *Report) {
 		for _, b := range f.Blocks {
 			for _, in := range b.Instrs {
 				c, ok := in.(*ssa.Call)
-				if !ok || !c.Common().IsInvoke() {
+				if !ok {
+					continue
+				}
+				// errors.As / errors.Is / errors.Unwrap walk the chain of an error by calling ITS Unwrap, As and Is
+				// methods: caller code when the error is one a context function returned
+				if g := c.Common().StaticCallee(); g != nil && !c.Common().IsInvoke() {
+					nm := p.extName(g)
+					if (nm == "errors.As" || nm == "errors.Is" || nm == "errors.Unwrap") && len(c.Common().Args) > 0 {
+						v := c.Common().Args[0]
+						if up := unspillParam(v); up != nil {
+							v = up
+						}
+						if ex, isEx := v.(*ssa.Extract); isEx {
+							v = ex.Tuple
+						}
+						may := false
+						switch x := v.(type) {
+						case *ssa.Call:
+							may = c01MayBeCallersError(p, x, 0)
+						case *ssa.Parameter:
+							for _, s := range paramActualSites(p, x) {
+								sv := s.val
+								if ex, isEx := sv.(*ssa.Extract); isEx {
+									sv = ex.Tuple
+								}
+								if cc, isC := sv.(*ssa.Call); isC && c01MayBeCallersError(p, cc, 0) {
+									may = true
+								}
+							}
+						}
+						if may {
+							n++
+							key := p.FuncName(f) + ":" + nm + "()"
+							count[key]++
+							if count[key] > 1 {
+								key += "#" + itoa(int64(count[key]))
+							}
+							if defersRecover(f) {
+								r.OK(key, p.InstrPos(in), "called under a deferred recover")
+							} else {
+								r.Bad(key, p.InstrPos(in), "%s walks the chain of an error that may be the one a context function returned, calling its Unwrap/As/Is methods — caller code — without a deferred recover in %s: a method that panics (an error type with a nil optional cause, a struct embedding a nil *os.PathError) ends the rendering with a panic instead of an error", nm, p.FuncName(f))
+							}
+						}
+					}
+					continue
+				}
+				if !c.Common().IsInvoke() {
 					continue
 				}
 				m := c.Common().Method
@@ -1482,6 +1569,9 @@ func ruleC01CounterWrites(p *Prog, a *Anchors, r *Report) {
 					return ""
 				}
 				why := okVal(st.Val, 0)
+				if m := c01MarkOf(p, fa); why == "" && m != nil && c01RaisesOnly(b, st, *m) {
+					why = "a value the mark was found to be below (the mark is only ever raised here)"
+				}
 				if why == "" && len(p.directAllocs(fa.X, 0)) > 0 {
 					// initialising a fresh object from something that is not a counter: judged by the bound rules
 					if _, isK := st.Val.(*ssa.Const); isK {
